@@ -190,7 +190,16 @@ def _registry(ctx, eng):
     for file, cls in ((EL, 'Element'), (EL, 'Isotope'), (LN, 'Line')):
         h = tree.find_func(file, cls + '.__hash__')
         r = tree.find_func(file, cls + '.__richcmp__')
-        hf = {n.attr for n in ast.walk(h) if isinstance(n, ast.Attribute) and isinstance(n.value, ast.Name) and n.value.id == 'self'}
+        hf = set()
+        shape_ok = False
+        rets = [n for n in ast.walk(h) if isinstance(n, ast.Return)]
+        if len(rets) == 1 and isinstance(rets[0].value, ast.Call) and ast.unparse(rets[0].value.func) == 'hash' \
+                and len(rets[0].value.args) == 1 and isinstance(rets[0].value.args[0], ast.Tuple):
+            elts = rets[0].value.args[0].elts
+            shape_ok = all(isinstance(e, ast.Attribute) and isinstance(e.value, ast.Name) and e.value.id == 'self' for e in elts)
+            hf = {e.attr for e in elts if isinstance(e, ast.Attribute)}
+        out.append(structural('%s/hash-is-hash-of-field-tuple' % cls, PROP, shape_ok,
+                              '__hash__ returns hash((self.f1, ..., self.fn)): %s' % ast.unparse(h)[-120:]))
         eqf = set()
         for n in ast.walk(r):
             if isinstance(n, ast.Compare) and isinstance(n.ops[0], ast.Eq) and isinstance(n.left, ast.Attribute) \
